@@ -27,7 +27,7 @@ RULE = (
     "is attacked with every mutator found by introspection. Distinct by (zone class, step kind, outcome, |retained|, |pinned|)."
 )
 RULE += " " + (
-    "Also (interleaved part): readers and writers as real threads under the deterministic scheduler with yield injection between statements of dns.versioned; whenever the zone's lock is free every open reader's version is among the retained ones and version ids strictly increase; each reader reads one committed value for its whole life. Distinct by schedule trace prefix."
+    "Also (interleaved part): readers and writers as real threads under the deterministic scheduler with yield injection between statements of dns.versioned; whenever the zone's lock is free every open reader's version is among the retained ones and version ids strictly increase; each reader reads one committed value for its whole life. Distinct by schedule trace prefix. B-tree zones of 300-600 names with held readers while names are deleted and added."
 )
 ASSUMPTIONS = [
     "retention model B2 (DESIGN.md Appendix B2): prune from the oldest while id < min(pinned or newest) and policy(len, id) says so",
